@@ -65,6 +65,7 @@ func (t *Transcoder) ServeHTTP(writer http.ResponseWriter, request *http.Request
 
 	if t.unknownHandler != nil && errors.Is(err, errNotFound) {
 		op.request.Header = op.originalHeaders // restore headers, just in case initialization removed keys
+		op.request.ContentLength = op.contentLen
 		t.unknownHandler.ServeHTTP(writer, op.request)
 		return
 	}
@@ -80,6 +81,7 @@ func (t *Transcoder) ServeHTTP(writer http.ResponseWriter, request *http.Request
 		// No transformation needed. But we do need to restore the original headers first
 		// since extracting request metadata may have removed keys.
 		op.request.Header = op.originalHeaders
+		op.request.ContentLength = op.contentLen
 		op.methodConf.handler.ServeHTTP(writer, op.request)
 		return
 	}
@@ -459,7 +461,7 @@ func (o *operation) validate(transcoder *Transcoder) error {
 
 	// Now that we've ruled out the use of bidi streaming above, it's safe to simulate HTTP/2
 	// for the benefit of gRPC handlers, which require HTTP/2.
-	if o.server.protocol.protocol() == ProtocolGRPC {
+	if o.server.protocol.protocol() == ProtocolGRPC && o.request.ProtoMajor != 2 {
 		o.request.Proto, o.request.ProtoMajor, o.request.ProtoMinor = "HTTP/2", 2, 0
 	}
 
